@@ -17,9 +17,9 @@ P = {
                  '+ differential correspondence on operation sequences + crisis-keeper invariant routes after every block of random '
                  'block histories on the real application',
     'drivers': [
-        {'name': 'invariants', 'n': {'quick': 36, 'thorough': 1200}, 'shrink_field': 'blocks', 'batch': 12,
+        {'name': 'invariants', 'n': {'quick': 36, 'thorough': 600}, 'shrink_field': 'blocks', 'batch': 12,
          'args': {'blocks': '20'}, 'timeout': 3000},
-        {'name': 'bankops', 'n': {'quick': 300, 'thorough': 20000}, 'shrink_field': 'ops', 'batch': 5000},
+        {'name': 'bankops', 'n': {'quick': 300, 'thorough': 12000}, 'shrink_field': 'ops', 'batch': 5000},
     ],
     'coq_header': 'From HV Require Import Bank.InvariantModel.\nFrom Coq Require Import ZArith NArith List.\nImport ListNotations.',
     'lists': {'ops': {'type': 'case', 'check': 'mismatches', 'shard': 40}},
